@@ -1,7 +1,7 @@
 #!/bin/sh
 # stage_seeded.sh <Cxx>: copy what a mutant agent left in /tmp/mut/Cxx/_out into /verif/seeded/Cxx-k/
 p=$1
-for k in 1 2 3 4 5 6 7 8 9 10; do
+for k in 1 2 3 4 5 6 7 8 9 10 11 12; do
   if [ -f /tmp/mut/$p/_out/change$k.diff ]; then
     d=/verif/seeded/$p-$k; mkdir -p $d
     cp /tmp/mut/$p/_out/change$k.diff $d/patch.diff
